@@ -58,6 +58,23 @@ int main() {
 				if (!r.out.empty()) j.str("partial", r.out.substr(0, 300));
 				out = j.done();
 			}
+		} else if (c.geti("leakprobe", 0) > 0) {
+			// steady-state leak monitor: the same operation is repeated in this process and the number of live heap bytes (harness allocation
+			// meter, counts every operator new / delete) is sampled after each repetition, when all objects of the operation are destroyed
+			long n = c.geti("leakprobe", 0);
+			std::string lives = "[";
+			std::string last;
+			for (long i = 0; i < n; ++i) {
+				{
+					std::string r;
+					try { r = runOp(c); } catch (const std::exception& ex) { r = std::string("{\"error\":\"") + ex.what() + "\"}"; }
+					if (i + 1 == n) last = r.substr(0, 400);
+				}
+				if (i) lives += ",";
+				lives += std::to_string(vh::AllocMeter::live.load());
+			}
+			lives += "]";
+			out = vh::JObj().str("id", c.get("id")).raw("live_after", lives).str("last", last).done();
 		} else {
 			try { out = runOp(c); }
 			catch (const std::exception& ex) { out = vh::JObj().str("id", c.get("id")).str("error", std::string("driver exception: ") + ex.what()).done(); }
